@@ -85,16 +85,14 @@ def analyse_class(chk, ctx, ci, spec_index=None):
     els = L.parse_encode_elements(body_parts, pol)
 
     # ---- decode side
-    it, outs, data = L.run_unmarshal(ctx, pol)
+    from .. import framepaths as F
+    f = F.UnmarshalFacts(ctx, idx, assume_type=fm if isinstance(fm, int)
+                         else None)
+    it, outs, data = f.it, f.outs, f.data
     rets = []
-    for o in outs:
-        if o.kind != 'return':
-            continue
-        v = o.value
-        if isinstance(v, tuple) and len(v) == 3 and isinstance(v[2], T.Ref):
-            ob = it.obj(o.state, v[2])
-            if ob.kind == 'inst' and ob.cls is ci:
-                rets.append((o, ob))
+    for r in f.rets:
+        if r.ok_shape and r.cls is ci:
+            rets.append((r.o, r.obj))
     if len(rets) != 1:
         chk.ob('C01.I', q + ' unmarshal', False,
                'frame.unmarshal has %d return(s) producing a %s for method '
@@ -103,35 +101,32 @@ def analyse_class(chk, ctx, ci, spec_index=None):
     o, ob = rets[0]
     n, ch, _ = o.value
     kn = o.state.kn
-    hdr = Sym('unpack', env['fmt'], T.slice_(data, 0, hf.size))
-    # find the header read actually used: any unpack of data[0:k]
-    reads = [t for t in T.subterms((n, ch) + tuple(kn.atoms))
-             if isinstance(t, Sym) and t.op == 'unpack' and
-             L.abs_range(t.args[1], data) is not None and
-             L.abs_range(t.args[1], data)[0] == 0]
-    hread = reads[0] if reads else None
+    hv = f.header
     d_ok = False
-    if hread is not None:
-        rf = T.fmt(hread.args[0])
-        size_t = T.index(hread, 2)
-        ch_t = T.index(hread, 1)
-        ty_t = T.index(hread, 0)
-        d_ok = rf.norm() == hf.norm() and \
-            T.sub(n, T.add(size_t, hf.size + 1)) == 0 and ch is ch_t and \
-            kn.decide(T.compare('eq', ty_t, fm)) is True
+    if hv is not None:
+        size_t, ch_t, ty_t = f.hfield(2), f.hfield(1), f.hfield(0)
         end_t = T.add(size_t, hf.size)
-        from ..framepaths import end_octet_guarded
-        end_ok = end_octet_guarded(kn, data, end_t,
-                                   fe[0] if isinstance(fe, bytes) and fe
-                                   else -1, fe)
-        d_ok = d_ok and end_ok
+        d_ok = hv.norm_ok() and \
+            T.sub(n, T.add(size_t, hf.size + 1)) == 0 and ch is ch_t and \
+            kn.decide(T.compare('eq', ty_t, fm)) is True and \
+            F.end_octet_guarded(kn, data, end_t,
+                                fe[0] if isinstance(fe, bytes) and fe
+                                else -1, fe)
     chk.ob('C01.E', q + ' unmarshal header', d_ok,
            'consumed=%s channel=%s' % (T.show(n)[:80], T.show(ch)[:80]),
-           detail={'header_read': T.show(hread)[:120] if hread is not None
+           detail={'header_read': hv.describe() if hv is not None
                    else None}, site=site)
-    if hread is None:
+    if hv is None:
         return
-    end_t = T.add(T.index(hread, 2), hf.size)
+    # the decoder accepts every payload size the encoder can emit
+    acc = kn.lin_interval(size_t)
+    a_lo = acc[0] if acc[0] is not None else 0
+    a_hi = acc[1] if acc[1] is not None else (1 << 32) - 1
+    chk.ob('C01.E', q + ' payload sizes', a_lo <= 4 and
+           a_hi >= (1 << 32) - 1,
+           'decoder accepts method payload sizes [%d, %d]; the encoder can '
+           'emit any size from 4 up to the u32 limit' % (a_lo, a_hi),
+           site=site)
     base0 = hf.size
     # index read
     idx_reads = [a for a in kn.atoms if isinstance(a, Sym) and a.op == 'eq'
